@@ -211,21 +211,35 @@ impl Params {
     }
 
     pub(crate) fn note_emitted_row(&self, stage: &str) -> Result<()> {
+        self.account_rows(stage, 1)
+    }
+
+    /// Checks the row budget without emitting a row. An operator calls this when its input is
+    /// exhausted: a budget that was used up inside an expression (a subquery in a predicate,
+    /// whose error the evaluator can only turn into null) is then reported instead of the query
+    /// ending quietly with the rows that expression dropped.
+    pub(crate) fn check_row_budget(&self, stage: &str) -> Result<()> {
+        self.account_rows(stage, 0)
+    }
+
+    fn account_rows(&self, stage: &str, emitted: usize) -> Result<()> {
         let observed = {
             let mut state = self
                 .runtime
                 .state
                 .lock()
                 .map_err(|_| Error::Other("execution runtime lock poisoned".to_string()))?;
-            state.emitted_rows = state.emitted_rows.saturating_add(1);
+            state.emitted_rows = state.emitted_rows.saturating_add(emitted);
             state.emitted_rows
         };
 
         let configured_limit = self.execute_options.max_intermediate_rows;
         // openCypher TCK uses a 1,000,001-row UNWIND+SUM case. Keep default
         // budgets compatible there while preserving strict caller overrides.
+        // A check without an emitted row (end of an operator's input) must not be stricter than
+        // the checks that let the rows through, whichever stage it is made from.
         let limit = if configured_limit == ExecuteOptions::default().max_intermediate_rows
-            && (stage == "Project" || stage == "Unwind" || stage == "Aggregate")
+            && (emitted == 0 || stage == "Project" || stage == "Unwind" || stage == "Aggregate")
         {
             configured_limit.max(2_500_000)
         } else {
